@@ -193,7 +193,8 @@ def release_mirror(prog: Program, rep: Report) -> None:
         want = "-self.release_frequency" if rev else "self.release_frequency"
         if step.replace(" ", "") not in (f"np.timedelta64({want},'s')", f"np.timedelta64(({want}),'s')"):
             sign_ok = False
-        if not (first.startswith("self._df.") and first.endswith(".index.unique()[0]") or first == "self._df.index.unique()[0]") or stop != "self.stop_time":
+        # the first file time: element 0 of the index, or of its unique values (order of appearance, the same element)
+        if first not in ("self._df.index.unique()[0]", "self._df.index[0]") or stop != "self.stop_time":
             anchor_ok = False
         if rev:
             n_rev += 1
